@@ -73,6 +73,30 @@
                     The property: null is "not present"; for a required parameter that is the
                     missing-parameter case, -32602, and the handler is not invoked.
 
+   THE EXCHANGE'S CONTEXT (deadlines, cancellation).  Every exchange runs under a context.Context: HTTP derives
+   it from the request (WithRequestTimeout -> context.WithTimeout), HandleReadWriter from the connection
+   (requestTimeout), HandleReader takes whatever the caller gives.  Read, not assumed - where the code looks at it:
+     * jsonrpc/http.go, only when the handler was built WithGate: Gate.Acquire(ctx) tests ctx.Err() FIRST; a
+       context that has already ended is refused before the body is read - deadline exceeded: HTTP 503 +
+       Retry-After ("refused"), cancelled: the client is gone, nothing is written ("dropped").  No handler runs.
+     * NOWHERE else.  HandleReader, handleBatchRequest (which only derives a WithCancel child that it cancels when
+       the batch is done), the worker pool (pool.Go blocks on a free worker, never on the context) and
+       handleRequest dispatch every entry whatever the state of the context; the context is HANDED to the handlers
+       that take one, and a handler called after the deadline sees an ended context.  So the code promises: once
+       an exchange has been admitted, every entry is dispatched, its handler invoked exactly once and its answer
+       included - also when the deadline has expired before dispatch (a request decoded late), when it expires
+       while an earlier entry of the batch occupies the only worker, and when the client has gone away.
+   cx is the state of the context ("live" | "expired" | "cancelled"), cx0 its state when the exchange started,
+   CtxEnd(s) ends it at any moment of the batch dispatch; seen records what each invoked handler found.  One
+   mutant switch (NOT a defect of the code; {} = the code as it is):
+
+     SilentOnCtx    the set of context states in which handleRequest, after the method lookup, returns "no
+                    response" without building arguments or calling the handler.  A nil response is how
+                    NOTIFICATIONS are represented: a request WITH an id whose turn comes after the deadline is
+                    silently dropped - short batch array, empty body for a single request - and its handler never
+                    runs.  {"expired"}: "the transport reports the timeout" (nothing does, past the gate);
+                    {"cancelled"}: "nobody is listening any more" (the batch's other entries still are answered).
+
    Modelling decisions (stated, not hidden):
      * an id member that is null is read as no id - the code (Request.ID == nil) and JSON-RPC 1.0 treat it as a
        notification; 2.0 merely discourages it.  Not judged.
@@ -96,7 +120,10 @@ CONSTANTS
   FixLongWs,
   FixNullRequired,  \* FALSE = the code as it is (see above)
   HasValidator,     \* the server was built WithValidator(...) (the node: rpcv10.Validator())
-  NilPointerSkipsValidation   \* mechanism switch, TRUE = the code as it is (see above)
+  NilPointerSkipsValidation,  \* mechanism switch, TRUE = the code as it is (see above)
+  CtxChoices,       \* subset of {"live", "expired", "cancelled"}: states the exchange's context may start in / move to
+  GateChoices,      \* subset of BOOLEAN: the transport is the HTTP handler built WithGate(...)
+  SilentOnCtx       \* mutant switch, {} = the code as it is (see above)
 
 KnownMethods == DOMAIN Methods
 
@@ -350,6 +377,14 @@ HandleRequest(i, e) ==
                 ELSE Resp(i, "result", 0, "echo"),
        inv  |-> Inv(i, e, b.args)]
 
+(* ... under a context in state c.  The code as it is never looks (SilentOnCtx = {}).  The mutant's early exit sits
+   between the method lookup and buildArguments: an insane request and an unknown method are still answered. *)
+CtxStates == {"live", "expired", "cancelled"}
+HandleRequestCx(i, e, c) ==
+  IF c \in SilentOnCtx /\ Sane(e) = "none" /\ e.meth \in KnownMethods
+    THEN [resp |-> NoResp, inv |-> NoInv]
+    ELSE HandleRequest(i, e)
+
 VARIABLES
   top,       \* "none" while the input is being chosen, then a member of TopKinds
   far,       \* the input starts with >= bufferSize (128) bytes of JSON whitespace
@@ -361,9 +396,13 @@ VARIABLES
   stage,     \* [entry -> "idle" | "queued" | "called" | "finished"]
   out,       \* responses in the order they were appended
   shape,     \* "pending" | "nothing" | "object" | "array"
-  log        \* handler invocations in call order
+  log,       \* handler invocations in call order
+  cx,        \* state of the exchange's context: "live" | "expired" (deadline exceeded) | "cancelled" (client gone)
+  cx0,       \* ... when the exchange reached the server
+  gated,     \* the transport is the HTTP handler with an admission gate
+  seen       \* [e, cs]: the state of the context handed to the handler of entry e, in call order
 
-vars == <<top, far, entries, phase, nxt, running, called, stage, out, shape, log>>
+vars == <<top, far, entries, phase, nxt, running, called, stage, out, shape, log, cx, cx0, gated, seen>>
 
 Idx == 1..MaxEntries
 
@@ -371,11 +410,16 @@ Init ==
   /\ top = "none" /\ far = FALSE /\ entries = <<>> /\ phase = "build" /\ nxt = 1 /\ running = {}
   /\ called = [i \in Idx |-> NoResp] /\ stage = [i \in Idx |-> "idle"]
   /\ out = <<>> /\ shape = "pending" /\ log = <<>>
+  /\ cx = "live" /\ cx0 = "live" /\ gated = FALSE /\ seen = <<>>
+
+ctxvars == <<cx, cx0, gated, seen>>
 
 ChooseTop(t, f) ==
   /\ phase = "build" /\ top = "none"
   /\ f => t \in {"batch", "garbagearr"}     \* elsewhere leading whitespace changes nothing in the model
   /\ top' = t /\ far' = f
+  /\ \E c \in CtxChoices, g \in GateChoices : cx' = c /\ cx0' = c /\ gated' = g
+  /\ seen' = seen
   /\ UNCHANGED <<entries, phase, nxt, running, called, stage, out, shape, log>>
 
 AddEntry(e) ==
@@ -383,19 +427,28 @@ AddEntry(e) ==
   /\ Len(entries) < (IF top = "single" THEN 1 ELSE MaxEntries)
   /\ top = "single" => e.k # "arr"          \* a top-level array IS a batch
   /\ entries' = Append(entries, e)
-  /\ UNCHANGED <<top, far, phase, nxt, running, called, stage, out, shape, log>>
+  /\ UNCHANGED <<top, far, phase, nxt, running, called, stage, out, shape, log, cx, cx0, gated, seen>>
 
 TopError(code) == <<Resp(0, "error", code, "null")>>
 
 (* isBatch(): the first non-space byte is '[' AND it lies within the 128-byte peek window *)
 BatchDetected == top \in {"batch", "garbagearr"} /\ (FixLongWs \/ ~far)
 
+(* http.go: Gate.Acquire(ctx) looks at ctx.Err() before anything else *)
+RefusedByGate == gated /\ cx0 # "live"
+
 (* HandleReader up to the point where the batch is handed to handleBatchRequest *)
 Serve ==
   /\ phase = "build" /\ top # "none"
   /\ top = "single" => Len(entries) = 1
-  /\ UNCHANGED <<top, far, entries, nxt, running, called, stage>>
-  /\ IF top = "garbage" \/ (top = "garbagearr" /\ ~BatchDetected) THEN
+  /\ UNCHANGED <<top, far, entries, nxt, running, called, stage, cx, cx0, gated>>
+  /\ seen' = IF ~RefusedByGate /\ top = "single" /\ ~DecodeErr(entries[1])
+                 /\ HandleRequestCx(1, entries[1], cx).inv # NoInv
+              THEN Append(seen, [e |-> 1, cs |-> cx]) ELSE seen
+  /\ IF RefusedByGate THEN
+       \* 503 + Retry-After when the deadline has passed; nothing at all for a client that is gone
+       /\ out' = <<>> /\ shape' = (IF cx = "expired" THEN "refused" ELSE "dropped") /\ log' = log /\ phase' = "done"
+     ELSE IF top = "garbage" \/ (top = "garbagearr" /\ ~BatchDetected) THEN
        /\ out' = TopError(CodeParse) /\ shape' = "object" /\ log' = log /\ phase' = "done"
      ELSE IF top = "garbagearr" THEN
        \* a disabled batch endpoint refuses before it parses
@@ -407,7 +460,7 @@ Serve ==
          /\ out' = <<Resp(1, "error", IF FixNonRequest THEN CodeInvalid ELSE CodeParse, "null")>>
          /\ shape' = "object" /\ log' = log /\ phase' = "done"
        ELSE
-         LET h == HandleRequest(1, e) IN
+         LET h == HandleRequestCx(1, e, cx) IN
          /\ out' = IF h.resp = NoResp THEN <<>> ELSE <<h.resp>>
          /\ shape' = IF h.resp = NoResp THEN "nothing" ELSE "object"
          /\ log' = IF h.inv = NoInv THEN log ELSE Append(log, h.inv)
@@ -436,16 +489,17 @@ Dispatch ==
        /\ stage' = [stage EXCEPT ![nxt] = "queued"]
        /\ out' = out
   /\ nxt' = nxt + 1
-  /\ UNCHANGED <<top, far, entries, phase, called, shape, log>>
+  /\ UNCHANGED <<top, far, entries, phase, called, shape, log, cx, cx0, gated, seen>>
 
 (* a worker runs handleRequest for entry i (the handler call happens here) *)
 Call(i) ==
   /\ phase = "dispatch" /\ i \in running /\ stage[i] = "queued"
-  /\ LET h == HandleRequest(i, entries[i]) IN
+  /\ LET h == HandleRequestCx(i, entries[i], cx) IN
      /\ called' = [called EXCEPT ![i] = h.resp]
      /\ log' = IF h.inv = NoInv THEN log ELSE Append(log, h.inv)
+     /\ seen' = IF h.inv = NoInv THEN seen ELSE Append(seen, [e |-> i, cs |-> cx])
   /\ stage' = [stage EXCEPT ![i] = "called"]
-  /\ UNCHANGED <<top, far, entries, phase, nxt, running, out, shape>>
+  /\ UNCHANGED <<top, far, entries, phase, nxt, running, out, shape, cx, cx0, gated>>
 
 (* ... and appends its response under the mutex, then the task returns *)
 Add(i) ==
@@ -453,14 +507,21 @@ Add(i) ==
   /\ out' = IF called[i] = NoResp THEN out ELSE Append(out, called[i])
   /\ running' = running \ {i}
   /\ stage' = [stage EXCEPT ![i] = "finished"]
-  /\ UNCHANGED <<top, far, entries, phase, nxt, called, shape, log>>
+  /\ UNCHANGED <<top, far, entries, phase, nxt, called, shape, log, cx, cx0, gated, seen>>
 
 (* wg.Wait(); "if there are no response objects server must not return empty array" *)
 Finish ==
   /\ phase = "dispatch" /\ nxt > Len(entries) /\ running = {}
   /\ shape' = IF out = <<>> THEN "nothing" ELSE "array"
   /\ phase' = "done"
-  /\ UNCHANGED <<top, far, entries, nxt, running, called, stage, out, log>>
+  /\ UNCHANGED <<top, far, entries, nxt, running, called, stage, out, log, cx, cx0, gated, seen>>
+
+(* the deadline passes / the client goes away while the batch is being dispatched: before the first entry has a
+   worker, while an earlier entry occupies one, between two entries, after the last one *)
+CtxEnd(s) ==
+  /\ phase = "dispatch" /\ cx = "live" /\ s \in CtxChoices \ {"live"}
+  /\ cx' = s
+  /\ UNCHANGED <<top, far, entries, phase, nxt, running, called, stage, out, shape, log, cx0, gated, seen>>
 
 CanAdd == /\ phase = "build" /\ top \in {"single", "batch"}
           /\ Len(entries) < (IF top = "single" THEN 1 ELSE MaxEntries)
@@ -470,6 +531,7 @@ Next ==
   \/ CanAdd /\ \E e \in EntryAlphabet : AddEntry(e)     \* guard first: the alphabet is large
   \/ Serve \/ Dispatch \/ Finish
   \/ \E i \in Idx : Call(i) \/ Add(i)
+  \/ \E s \in CtxChoices : CtxEnd(s)
 
 Spec == Init /\ [][Next]_vars
 
@@ -482,8 +544,9 @@ Count(s, P(_)) == Cardinality({i \in DOMAIN s : P(s[i])})
 
 (* the input reached the per-entry stage (it was a request or a processed batch) *)
 LongWsMiss == ~FixLongWs /\ far /\ top \in {"batch", "garbagearr"}     \* known deviation
-Processed == \/ top = "single"
-             \/ top = "batch" /\ ~BatchDisabled /\ entries # <<>> /\ ~LongWsMiss
+Processed == /\ ~RefusedByGate
+             /\ \/ top = "single"
+                \/ top = "batch" /\ ~BatchDisabled /\ entries # <<>> /\ ~LongWsMiss
 
 (* what the property allows for entry i in this context, with the two known deviations of the
    code as it is switched in (both switches TRUE: the pure property) *)
@@ -506,7 +569,8 @@ RespOK(i, e, r) ==
 TypeOK ==
   /\ top \in TopKinds \cup {"none"} /\ far \in BOOLEAN
   /\ phase \in {"build", "dispatch", "done"}
-  /\ shape \in {"pending", "nothing", "object", "array"}
+  /\ shape \in {"pending", "nothing", "object", "array", "refused", "dropped"}
+  /\ cx \in CtxStates /\ cx0 \in CtxStates /\ gated \in BOOLEAN
   /\ running \subseteq Idx
   /\ Cardinality(running) <= PoolSize
   /\ Len(entries) <= MaxEntries
@@ -518,7 +582,7 @@ PShape ==
     /\ shape = "nothing" <=> (Processed /\ \A i \in DOMAIN entries : Silent(entries[i]))
     /\ shape = "array" <=> (top = "batch" /\ Processed /\ \E i \in DOMAIN entries : ~Silent(entries[i]))
     /\ shape # "pending"
-    /\ shape = "nothing" <=> out = <<>>
+    /\ shape \in {"nothing", "refused", "dropped"} <=> out = <<>>
     /\ shape = "object" => Len(out) = 1
 
 (* exactly one response per non-notification entry, none for a notification, nothing else *)
@@ -540,11 +604,11 @@ PureTopCode == CASE top = "garbage" -> CodeParse
                  [] top = "batch" /\ ~PureProcessed -> CodeInvalid
                  [] OTHER -> 0
 PTopLevel ==
-  /\ (Done /\ ~Processed) =>
+  /\ (Done /\ ~Processed /\ ~RefusedByGate) =>
        /\ shape = "object" /\ log = <<>>
        /\ out = TopError(IF ~LongWsMiss THEN PureTopCode
                          ELSE IF top = "garbagearr" \/ ~FixNonRequest THEN CodeParse ELSE CodeInvalid)
-  /\ (FixLongWs /\ Done) => (Processed <=> PureProcessed)
+  /\ (FixLongWs /\ Done /\ ~RefusedByGate) => (Processed <=> PureProcessed)
 
 (* each valid request invokes its handler exactly once with the supplied arguments; nothing else
    is invoked *)
@@ -555,6 +619,35 @@ PInvocations ==
            (IF Processed /\ (Class(entries[i]) = "ok" \/ NullReqDev(entries[i])) THEN 1 ELSE 0)
     /\ \A v \in Range(log) : /\ v.e \in DOMAIN entries
                               /\ v = IF NullReqDev(entries[v.e]) THEN AsIsInv(v.e, entries[v.e]) ELSE DeclInv(v.e, entries[v.e])
+
+(* THE CONTEXT.  POnePerEntry, PResponses and PInvocations above do not mention it: they hold for every state the
+   context starts in or moves to (CtxChoices) - "one response per owed entry, also after the deadline".  What the
+   context does decide:
+   admission - only the gate of the HTTP transport refuses, only a context that had ended when the exchange arrived,
+   with a 503 for an expired deadline and with nothing for a client that is gone; nothing is dispatched then *)
+PRefusal ==
+  Done => /\ (shape \in {"refused", "dropped"} <=> RefusedByGate)
+          /\ (shape = "refused" => cx0 = "expired" /\ out = <<>> /\ log = <<>>)
+          /\ (shape = "dropped" => cx0 = "cancelled" /\ out = <<>> /\ log = <<>>)
+(* the pure reading of "each valid request invokes its handler exactly once", for a server that may give up on a
+   request whose time is over: the handler ran once, or it did not run and the caller is TOLD so by an error
+   response carrying the request's id.  Never both, never neither; a notification cannot be told, it runs. *)
+PHandlerOnceOrError ==
+  (Done /\ Processed) =>
+    \A i \in DOMAIN entries :
+      (Class(entries[i]) = "ok" \/ NullReqDev(entries[i])) =>
+        \/ Count(log, LAMBDA v : v.e = i) = 1
+        \/ /\ Count(log, LAMBDA v : v.e = i) = 0 /\ HasId(entries[i])
+           /\ \E r \in Range(out) : r.e = i /\ r.kind = "error" /\ r.id = "echo"
+(* the handler is handed the exchange's context: what it saw is a state the context was in, an ended context stays
+   ended (a handler that saw the deadline passed was called after it passed) *)
+PCtxSeen ==
+  /\ Len(seen) = Len(log)
+  /\ \A k \in DOMAIN seen : /\ seen[k].e = log[k].e
+                             /\ seen[k].cs \in {cx0, cx}
+                             /\ (cx0 # "live" => seen[k].cs = cx0)
+                             /\ (seen[k].cs # "live" => seen[k].cs = cx)
+  /\ (cx0 # "live" => cx = cx0)
 
 (* while a batch is in flight nothing is lost or duplicated either *)
 PInFlight ==
@@ -589,5 +682,5 @@ BuildAgreesWithDecl(P) ==
       /\ BuildArguments(md, p).ok <=> fit
       /\ fit => BuildArguments(md, p).args = DeclArgs(md, p)
 
-view == <<top, far, entries, phase, nxt, running, called, stage, out, shape, log>>
+view == <<top, far, entries, phase, nxt, running, called, stage, out, shape, log, cx, cx0, gated, seen>>
 =============================================================================
